@@ -753,6 +753,7 @@ public:
       FO["off"] = (int64_t)(L.getFieldOffset(F->getFieldIndex()) / 8);
       FO["access"] = (int64_t)F->getAccess();
       if (F->isBitField()) FO["bitfield"] = true;
+      if (F->isMutable()) FO["mutable"] = true;
       if (F->getType()->isIncompleteArrayType()) FO["flex"] = true;
       Fields.push_back(std::move(FO));
     }
